@@ -33,14 +33,29 @@ def fmtCase (sx : Sx) : Sx :=
       | _ => .list [.atom "unparsable"]
     | none => .atom "model-case-error"
   | .list [.atom "cli", w, c, t] =>
-    match asNat w, asOptBool c, (asStr t).map String.toList with
-    | some w, some (some color), some t =>
+    -- `-` for the width: no `-c` option, the tool's default of 80 columns
+    match asOptBool c, (asStr t).map String.toList with
+    | some (some color), some t =>
+      let w := (asNat w).getD 80
       match tryFrom t with
       | .ok i =>
-        let out := (if color then Fmt.multilineC i 0 w else Fmt.multiline i 0 w) ++ ['\n']
-        .list [.atom "cli", .atom "0", strSx out]
-      | _ => .list [.atom "cli", .atom "1", strSx []]
-    | _, _, _ => .atom "model-case-error"
+        let lib := if color then Fmt.multilineC i 0 w else Fmt.multiline i 0 w
+        .list [.atom "cli", .atom "0", strSx (lib ++ ['\n']), strSx lib]
+      | _ => .list [.atom "cli", .atom "1", strSx [], .atom "-"]
+    | _, _ => .atom "model-case-error"
+  | .list (.atom "conc" :: _ :: jobs) =>
+    -- formatting is a function of (definition, width): the concurrent expectation is the sequential value
+    let rs := jobs.map fun j =>
+      match j with
+      | .list [w, t] =>
+        match asNat w, (asStr t).map String.toList with
+        | some w, some t =>
+          match tryFrom t with
+          | .ok i => some (Sx.list [strSx (Fmt.multiline i 0 w), strSx (Fmt.multilineC i 0 w), .atom "0", .atom "0", .atom "0", .atom "-"])
+          | _ => none
+        | _, _ => none
+      | _ => none
+    if rs.all Option.isSome then .list (.atom "conc" :: rs.filterMap id) else .list [.atom "unparsable"]
   | _ => .atom "model-case-error"
 
 def fmtLine (line : String) : String :=
